@@ -131,10 +131,10 @@ def chg_eq_post(C):
                m1.memo.z == m0.memo.z)
 
 
-contract('SdSimulation.change_equation', file=F_SIM, props=['C07', 'C09'], params=dict(self=SIM, name=STR, value=ANY),
+contract('SdSimulation.change_equation', file=F_SIM, props=['C07', 'C09', 'C08'], params=dict(self=SIM, name=STR, value=ANY),
          requires=lambda C: C.self.mod != NULL, ensures=chg_eq_post, modifies=['SdModel.equations'])
 
-contract('SdSimulation.change_points', file=F_SIM, props=['C07'], params=dict(self=SIM, name=STR, value=ANY),
+contract('SdSimulation.change_points', file=F_SIM, props=['C07', 'C08'], params=dict(self=SIM, name=STR, value=ANY),
          requires=lambda C: C.self.mod != NULL,
          ensures=lambda C: And(C.self.mod.points.has(C.name),
                                FA('str', lambda k: Implies(k != C.name, And(C.self.mod.points.has(k) == C.old.self.mod.points.has(k),
